@@ -236,6 +236,22 @@ func (g c07Gen) urlData() []byte {
 			}
 		}
 	}
+	if r.Intn(10) == 0 {
+		// MANY distinct parameters (far more than a client sends), the ones the lookups ask for among / after them
+		if sb.Len() == 0 {
+			sb.WriteString("/?")
+		} else if !strings.Contains(sb.String(), "?") {
+			sb.WriteByte('?')
+		}
+		cnt := []int{31, 32, 33, 64, 120}[r.Intn(5)]
+		for i := 0; i < cnt; i++ {
+			fmt.Fprintf(&sb, "&q%d=%d", i, r.Intn(10))
+			if i == cnt/2 && r.Intn(2) == 0 {
+				sb.WriteString("&" + c07Keys[r.Intn(len(c07Keys))] + "=mid")
+			}
+		}
+		sb.WriteString("&" + c07Keys[r.Intn(len(c07Keys))] + "=last")
+	}
 	if r.Intn(8) == 0 {
 		// a long request string: BEP 41 chains it over any number of URLData options
 		total := []int{254, 255, 256, 509, 510, 511, 512, 700, 765, 766, 1020, 1021, 1500, 1850}[r.Intn(14)]
